@@ -15,8 +15,14 @@ CLAIMED = {
   "Coq theorem cons_check_sound: accepted instances keep every input block once, with payload, arity and positional successors (renamed only to new names). Per instance, every stage, three payload types."),
  "C06": ("translation_validation", "5 (C06)", "verified closed-set control-variable checker (Coq)",
   "Coq theorem ctrl_check_sound/c06_check_sound: in accepted instances ALL decision lists run without an unset, out-of-range or stale control-variable read, and every value table agrees with the block's successors. Per instance, every stage."),
+ "C07": ("exploration", "5 (C07)", "path-exhaustive differential execution under an external oracle; Coq only for the middle leg (C01/C05) and the census (C10)",
+  "NO theorem decides this property (DESIGN.md section 5, C07: the verified program-vs-graph equivalence checker was not completed). Generated programs over the supported subset and closed CFGs of AST blocks are pushed through the whole pipeline; the outcome must be ok or an explicit NotImplementedError, the regenerated source must compile and agree with the original on every enumerated decision path (oracle answers 0/1/2; sequence of external calls, returned value or exception type). Two known findings (nested and/or evaluated eagerly, for target initialised to None) are listed in known_findings.json."),
+ "C08": ("proof", "5 (C08)", "Coq proof of the pruning passes with order-exact correspondence (census half); path-exhaustive differential execution for the semantic half",
+  "PARTIAL. Proved in Coq over a line-by-line model of prune_unreachable / prune_noops / prune_empty: exactly the blocks unreachable from the entry, the no-op statements and the blocks without instructions are removed, every other instruction survives once and in order; the model's pruning of the implementation's unpruned graph equals the implementation's pruned graph for every generated program. NOT proved: that interpreting the graph equals running the function - that half is decided by path-exhaustive differential execution against CPython under an oracle (exploration). Two known findings listed."),
  "C09": ("proof", "5 (C09)", "Coq proof of the block cutter over all well-formed instruction streams; opcode tables translated from source and from the interpreters' opcode modules",
   "Universal Coq theorem C09_cut_spec: for every instruction stream satisfying WfStream the line-by-line model of FlowInfo.from_bytecode + build_basicblocks succeeds and its blocks tile the stream, are entered only at their begin, contain jumps only as last instruction and carry exactly the ordered successors of their last instruction. Finite obligations re-checked on every run over the translated tables: every in-domain opcode of each interpreter present (3.12, 3.11) is classified as the interpreter treats it, non-fall-through jumps/returns carry no inline cache, the offset helpers are +2/-2. Model blocks = implementation blocks on >1000 standard-library functions under both interpreters, with WfStream decided (soundly) per function."),
+ "C10": ("translation_validation", "5 (C10)", "verified multiset checker (Coq) on the identities of statements in the hierarchy vs the regenerated tree",
+  "Per regenerated tree - every accepted generated program and every accepted closed CFG of AST blocks - the verified checker census_check (sound: accepts only equal multisets) compares the original statements, the control-variable assignments and the branching tests used as if-conditions with what the restructured hierarchy holds: nothing dropped, nothing duplicated, also on paths no input exercises. The harness additionally compiles the output and checks that new identifiers match ^__scfg_.*__$ (the control-variable template is shown reserved in Coq). A universal census theorem over a model of SCFG2AST is not proved."),
  "C11": ("proof", "5 (C11)", "Coq proof by induction over statement trees on a dispatcher translated from handle_ast_node and the interpreter's ast classes",
   "Over the dispatcher translated on every run from handle_ast_node (plus the handlers' statement-visiting skeleton and the statement classes of the running interpreter's ast module): every statement class outside the supported subset reaches the not-implemented arm, handlers descend into every statement-list field (finite obligations by vm_compute), and - by induction over statement trees of any depth - if the front end accepts a module body then no statement anywhere below it is of a refused class and the only function definition is the first top-level node; non-function input is refused. Model outcome = implementation outcome on every unsupported class at every structural position and on random trees."),
  "C12": ("proof", "5 (C12)", "translated inventory of set-iteration sites checked against a reviewed table in Coq; permutation-invariance lemmas; cross-hash-seed runs",
